@@ -2,7 +2,7 @@
    completeness theorems (unique node ids, every node productive), their
    reflection lemmas, and the combined theorem. *)
 From Coq Require Import List Arith Lia Bool.
-From LV Require Import Sema SetLemmas FirstSpec FirstComplete FirstSound.
+From LV Require Import Sema SetLemmas FirstSpec FirstComplete FirstSound FirstClosed.
 Import ListNotations.
 
 Section Cert.
@@ -120,5 +120,14 @@ Proof.
   destruct (first_complete g m Hcl x Hx) as (C1 & C2).
   split; [intros a|]; split; auto.
 Qed.
+
+(* the closure hypothesis is itself a theorem (FirstClosed.calc_first_closed) *)
+Theorem first_exact_any fuel m :
+  wf_ids_b = true -> productive_b = true ->
+  calc_first g fuel = Some m ->
+  forall x, In x (nodes_of g) ->
+    (forall a, mem (T a) (get m (rid_of x)) = true <-> First_spec g x a)
+    /\ (mem Eps (get m (rid_of x)) = true <-> Nullable_spec g x).
+Proof. intros Hw Hp Hc. eapply first_exact; try eassumption. eapply calc_first_closed. eassumption. Qed.
 
 End Cert.
